@@ -779,7 +779,13 @@ def inline_new_helpers_program(trees, known_by_rel):
                 if isinstance(st, ast.FunctionDef) and st.name not in known and _inlinable(st):
                     helpers[("f", rel, st.name)] = (st, False, False)
                 elif isinstance(st, ast.ClassDef):
+                    # a new method that overrides one of a base class is not a helper: Python dispatches to it wherever the inherited
+                    # name is called (from outside the package too) - it stays in the class for the rules to read
+                    all_known = set().union(*[k_ for k_ in known_by_rel.values() if k_])
+                    base_names = _Inliner({}, None).mro(st.name)[1:]
                     for m in st.body:
+                        if isinstance(m, ast.FunctionDef) and any(f"{b_}.{m.name}" in all_known for b_ in base_names):
+                            continue
                         if isinstance(m, ast.FunctionDef) and f"{st.name}.{m.name}" not in known and _inlinable(m) \
                                 and not any(ast.unparse(d) in ("property", "classmethod") or ast.unparse(d).endswith(".setter") for d in m.decorator_list):
                             static = any(ast.unparse(d) == "staticmethod" for d in m.decorator_list)
